@@ -3,6 +3,7 @@ package rules
 import (
 	"fmt"
 	"go/ast"
+	"go/constant"
 	"go/token"
 	"go/types"
 	"regexp"
@@ -2227,5 +2228,70 @@ func ruleSizeFunctionTokens(c *core.Ctx) {
 			}
 			c.Check(got == want, rule, em.name+"/size/"+sc, at, "prints `"+got+"`", fmt.Sprintf("for size() of a %s with %s argument(s) the %s emitter prints `%s`, the reference token is `%s`: the computed field yields a different number than in the other languages (e.g. the first extent instead of the element count)", dim, nargs, em.name, got, want))
 		}
+	}
+}
+
+// Q5b: both documented spellings of an array's dimensions are accepted. The expanded form lists dimensions as a
+// sequence of names (`dimensions: [x, y]`) or a map of name → length; the items of the sequence form are decoded by
+// (*ArrayDimension).UnmarshalYAML, which therefore must accept a string scalar (the name) as well as an integer
+// scalar (a length): a test of the node's tag against "!!str" and one against "!!int", each leading to a nil-error
+// return that stored the value.
+func ruleDimensionItemSpellings(c *core.Ctx) {
+	const rule = "Q5b"
+	c.Rule(rule, "(*ArrayDimension).UnmarshalYAML accepts the scalar tags !!str (dimension name of the sequence form) and !!int (length)", 2)
+	p := c.Pkg("pkg/dsl")
+	var d *ast.FuncDecl
+	for _, od := range c.AllDecls() {
+		if c.DeclPkg(od) == p && od.Recv != nil && od.Name.Name == "UnmarshalYAML" {
+			if nt := core.NamedOf(p.TypesInfo.TypeOf(od.Recv.List[0].Type)); nt != nil && nt.Obj().Name() == "ArrayDimension" {
+				d = od
+			}
+		}
+	}
+	if d == nil {
+		c.Undecided(rule, "anchor/(*ArrayDimension).UnmarshalYAML", 0, "method not found")
+		return
+	}
+	info := p.TypesInfo
+	// tag constants tested (== in an if, or a case of a switch on .Tag) in the method and the package helpers it calls
+	accepted := map[string]bool{}
+	for _, fd := range declsCalledInPkg(c, d, 1) {
+		ast.Inspect(fd.Body, func(n ast.Node) bool {
+			switch x := n.(type) {
+			case *ast.BinaryExpr:
+				if x.Op == token.EQL {
+					for _, pair := range [][2]ast.Expr{{x.X, x.Y}, {x.Y, x.X}} {
+						if strings.HasSuffix(types.ExprString(pair[0]), ".Tag") {
+							if tv := info.Types[pair[1]]; tv.Value != nil && tv.Value.Kind() == constant.String {
+								accepted[constant.StringVal(tv.Value)] = true
+							}
+						}
+					}
+				}
+			case *ast.SwitchStmt:
+				if x.Tag != nil && strings.HasSuffix(types.ExprString(x.Tag), ".Tag") {
+					for _, s := range x.Body.List {
+						cc := s.(*ast.CaseClause)
+						// a case that only reports an error does not accept the tag
+						onlyErr := len(cc.Body) == 1
+						if onlyErr {
+							if r, ok := cc.Body[0].(*ast.ReturnStmt); !ok || len(r.Results) != 1 || info.Types[r.Results[0]].IsNil() {
+								onlyErr = false
+							}
+						}
+						for _, e := range cc.List {
+							if tv := info.Types[e]; tv.Value != nil && tv.Value.Kind() == constant.String && !onlyErr {
+								accepted[constant.StringVal(tv.Value)] = true
+							}
+						}
+					}
+				}
+			}
+			return true
+		})
+	}
+	for _, tag := range []string{"!!str", "!!int"} {
+		c.Check(accepted[tag], rule, "ArrayDimension.UnmarshalYAML/"+tag, d.Pos(), "accepted",
+			"the dimension item decoder has no branch for the scalar tag "+tag+": the documented expanded spelling `dimensions: [x, y]` (names) / `[3, 4]` (lengths) is rejected although the shorthand `T[x, y]` / `T[3, 4]` is accepted")
 	}
 }
